@@ -215,7 +215,20 @@ func VH23b_listener() {
 	}
 	c, st := vws.NewConn("a")
 	vws.NextUpgrade = c
-	verif.Go("serve", func() { h.ServeHTTP(&nullWriter{hdr: http.Header{}}, &http.Request{Header: hdr}) })
+	// the application's own HTTP server may well be an HTTPS server although the listener's address says ws://:
+	// what the accepted pipe reports about TLS follows the request that carried the connection
+	overTLS := verif.Choice("request-came-over-tls", 2) == 1
+	req := &http.Request{Header: hdr}
+	if overTLS {
+		req.TLS = &tls.ConnectionState{}
+	}
+	var attached mangos.Pipe
+	sock.SetPipeEventHook(func(ev mangos.PipeEvent, p mangos.Pipe) {
+		if ev == mangos.PipeEventAttached {
+			attached = p
+		}
+	})
+	verif.Go("serve", func() { h.ServeHTTP(&nullWriter{hdr: http.Header{}}, req) })
 	verif.Quiesce()
 	offered := false
 	for _, o := range offer {
@@ -237,6 +250,13 @@ func VH23b_listener() {
 		verif.Assert(vws.UpgradeAllowsForeignOrigin == !checks, "C19/ws-listener/origin-check-setting-not-in-force")
 		verif.Assert(st.LimitSet && st.ReadLimit == int64(maxrx), "C16/ws-listener/read-limit-not-applied")
 		verif.Reach("accepted")
+		verif.Assert(attached != nil, lab+"/accepted-connection-never-attached")
+		if attached != nil {
+			_, terr := attached.GetOption(mangos.OptionTLSConnState)
+			verif.Assert((terr == nil) == overTLS, "C13/ws-listener/pipe-tls-state-does-not-follow-the-request")
+			_, aerr := attached.GetOption(mangos.OptionRemoteAddr)
+			verif.Assert(aerr == nil, "C13/ws-listener/pipe-has-no-remote-address")
+		}
 		// traffic: one binary frame per message
 		if sock.Info().SelfName == "pair" {
 			body := verif.Bytes("body", 2)
